@@ -69,11 +69,12 @@ Init == \E p \in Params :
           /\ hist = <<[Entry0("Init") EXCEPT !.par = p, !.dst = 1]>>
 
 Room == Len(hist) <= MAXLEN        \* hist[1] is the Init entry
+RoomW == Len(hist) < MAXLEN        \* a write is never the last action of a behaviour (nothing would observe it)
 Result(r) == IF r.err = "" THEN Append(store, r.sys) ELSE store
 Dst(r) == IF r.err = "" THEN Len(store) + 1 ELSE 0
 
 DoSaveNpz(i) ==
-   /\ Room
+   /\ RoomW
    /\ \E d \in {SaveDir(disk.npz, store[i])} : disk' = [disk EXCEPT !.npz = d, !.npzsrc = i, !.npzfresh = ~disk.npz.present]
    /\ hist' = Append(hist, [Entry0("SaveNpz") EXCEPT !.src = i, !.fresh = ~disk.npz.present])
    /\ UNCHANGED store
@@ -84,7 +85,7 @@ DoLoadNpz ==
       /\ hist' = Append(hist, [Entry0("LoadNpz") EXCEPT !.src = disk.npzsrc, !.dst = Dst(r), !.err = r.err, !.fresh = disk.npzfresh])
    /\ UNCHANGED disk
 DoWriteTb(i) ==
-   /\ Room
+   /\ RoomW
    /\ disk' = [disk EXCEPT !.tb = [present |-> TRUE, src |-> i]]
    /\ hist' = Append(hist, [Entry0("WriteTb") EXCEPT !.src = i])
    /\ UNCHANGED store
@@ -96,7 +97,7 @@ DoReadTb(needAA, given) ==
                                                         !.needAA = needAA, !.given = given])
    /\ UNCHANGED disk
 DoWriteHr(i) ==
-   /\ Room
+   /\ RoomW
    /\ disk' = [disk EXCEPT !.hr = [present |-> TRUE, src |-> i]]
    /\ hist' = Append(hist, [Entry0("WriteHr") EXCEPT !.src = i])
    /\ UNCHANGED store
